@@ -9,7 +9,12 @@ independently written Go interpreter over the REAL rule text, stream `sem`).
 * iptables-restore --noflush into an empty table: `-A` appends to its chain, `-I chain n` inserts
   at position n (1-based), in input order (`chainOf`).
 * A packet at a hook traverses the tables raw, mangle, nat in that order; the nat table is only
-  consulted for the first packet of a connection (conntrack state NEW).
+  consulted for the first packet of a connection (conntrack state NEW), and only once per kind of
+  address manipulation: a locally generated connection receives its destination-NAT binding (a REDIRECT
+  or the null binding) at nat/OUTPUT, so when its packet comes back in through `lo`, nat/PREROUTING is
+  NOT consulted again (`natConsulted`; every packet arriving on `lo` was locally generated). mangle and
+  raw are consulted at every hook. (Kernel fact nf_nat_initialized/NF_NAT_MANIP_DST; confirmed by the
+  live probe harness/c20/probe.py where an `unshare -n` namespace is available.)
 * Inside a table the built-in chain of the hook is walked top down; the first rule whose matches
   all hold fires: ACCEPT / DROP / REDIRECT / TPROXY end the traversal of the table, RETURN (or the
   end of the chain) resumes in the calling chain, in a built-in chain it means the policy ACCEPT;
@@ -135,9 +140,13 @@ structure Fate where
   pkt      : Packet                 -- the packet with its final marks
   deriving DecidableEq, Repr
 
+/-- Is the nat table consulted for this packet at this hook? -/
+def natConsulted (h : Hook) (ct : CtState) (inIf : String) : Bool :=
+  ct == .new && !(h == .prerouting && inIf == "lo")
+
 def stepTable (d : Nat) (rules : List Rule) (h : Hook) (f : Fate) (t : Table) : Fate :=
   if f.dropped || f.loop then f
-  else if t == .nat && f.pkt.ctstate != .new then f
+  else if t == .nat && !natConsulted h f.pkt.ctstate f.pkt.inIf then f
   else
     match evalTable d rules t h f.pkt with
     | .accept p' => { f with pkt := p' }
@@ -157,5 +166,20 @@ def Packet.fam (p : Packet) : Fam := if p.v6 then .v6 else .v4
 def stackDepth : Nat := 10
 
 def fateOf (c : Config) (p : Packet) : Fate := traverse stackDepth (rulesOf c p.fam) p
+
+/-! ## Across hooks: a locally generated packet sent on `lo` comes back in at PREROUTING -/
+
+/-- The packet as it re-enters through `lo` after the OUTPUT hook: same packet with the marks it left
+    OUTPUT with, now at PREROUTING with input interface `lo`; a REDIRECT at OUTPUT rewrote its
+    destination port (and its destination address to the local address `dst'`). -/
+def reenterLo (f : Fate) (dst' : Nat) : Packet :=
+  { f.pkt with hook := .prerouting, inIf := "lo", outIf := "",
+               dst := if f.redirect.isSome then dst' else f.pkt.dst,
+               dport := f.redirect.getD f.pkt.dport }
+
+/-- Both hooks of the loopback journey of a packet sent at OUTPUT (`none`: it never came back). -/
+def loJourney (d : Nat) (rules : List Rule) (p : Packet) (dst' : Nat) : Fate × Option Fate :=
+  let f1 := traverse d rules p
+  (f1, if f1.dropped || f1.loop then none else some (traverse d rules (reenterLo f1 dst')))
 
 end IstioModel.C20
